@@ -289,7 +289,7 @@ def run_fault(dirpath, path, content):
         tk = T.HyperscanTokenizer(extractors=list(G["cache_pool"]), cache_dir=dirpath)
         got = [[freeze(ser_token(t)) for t in tk.tokenize(x)[0]] for x in CACHE_TEXTS]
     except BaseException as e:  # noqa: BLE001
-        return [("cache-raise", short_exc(e))]
+        return [("cache-raise", short_exc(e).replace(dirpath, "<cache_dir>"))]
     if got != G["baseline"]:
         i = next(i for i, (a, b) in enumerate(zip(got, G["baseline"])) if a != b)
         return [("cache-tokens-differ", f"tokens for {CACHE_TEXTS[i]!r} differ from the cache-less tokenizer")]
@@ -329,7 +329,7 @@ def run_crash(limit):
                 tk = T.HyperscanTokenizer(extractors=list(G["cache_pool"]), cache_dir=d)
                 got = [[freeze(ser_token(t)) for t in tk.tokenize(x)[0]] for x in CACHE_TEXTS]
             except BaseException as e:  # noqa: BLE001
-                res.append(("crash-raise", f"writer crashed after {limit} bytes leaving {left}; tokenizer construction #{attempt} raised {short_exc(e)}"))
+                res.append(("crash-raise", f"writer crashed after {limit} bytes leaving {left}; tokenizer construction #{attempt} raised {short_exc(e).replace(d, '<cache_dir>')}"))
                 break
             if got != G["baseline"]:
                 res.append(("crash-tokens-differ", f"writer crashed after {limit} bytes leaving {left}; tokens differ from the cache-less tokenizer (construction #{attempt})"))
